@@ -388,6 +388,71 @@ func ruleC18Valid(r *Run) {
 		}
 	})
 	r.Check(rule, "binding.Validate", v.Pos(), okV, "Validate applies the configured Validator to the bound value (nil validator = disabled)")
+	// the package's own validators: a nil result means the validation library ran on that very value and passed.
+	// A shortcut that answers "valid" without running it (a per-type "has no rules" memo, a nil/kind fast path)
+	// re-implements the library's rule discovery — rules also come from the ConfigValidation / Messages /
+	// Translates methods of the value, not only from field tags — and lets unvalidated data through.
+	dvT := w.Named("binding", "DataValidator").Underlying().(*types.Interface)
+	nImpl := 0
+	for _, f := range w.Funcs {
+		if f.Pkg == nil || f.Pkg.Pkg.Path() != modPath+"/pkg/binding" || f.Parent() != nil || f.Name() != "Validate" {
+			continue
+		}
+		recv := f.Signature.Recv()
+		if recv == nil || !(types.Implements(recv.Type(), dvT) || types.Implements(types.NewPointer(recv.Type()), dvT)) || len(f.Params) < 2 {
+			continue
+		}
+		nImpl++
+		obj := f.Params[1]
+		fromObj := func(x ssa.Value) bool {
+			return flowsFromDeep(x, func(y ssa.Value) bool { return y == ssa.Value(obj) })
+		}
+		isLibCall := func(x ssa.Value) (*ssa.Call, bool) {
+			c, ok := x.(*ssa.Call)
+			if !ok {
+				return nil, false
+			}
+			sc := staticCallee(c)
+			if sc == nil || sc.Pkg == nil || sc.Pkg.Pkg.Path() != "github.com/gookit/validate" {
+				return nil, false
+			}
+			return c, true
+		}
+		nr := 0
+		eachInstr(f, func(in ssa.Instruction) {
+			ret, ok := in.(*ssa.Return)
+			if !ok || len(ret.Results) != 1 {
+				return
+			}
+			nr++
+			construct := fmt.Sprintf("%s:return#%d", FuncName(f), nr)
+			paths, complete := enumPaths(f, ret, 4096)
+			if !complete {
+				r.Undecided(rule, construct, w.InstrPos(ret), "too many paths")
+				return
+			}
+			bad := ""
+			for _, p := range paths {
+				rv := resolveAlong(ret.Results[0], p.pred)
+				okPath := false
+				// the verdict of the library, computed from the value: v.Errors.OneError(), v.ValidateErr(), ...
+				if flowsFromDeep(rv, func(y ssa.Value) bool { c, is := isLibCall(y); return is && fromObj(c) }) {
+					okPath = true
+				}
+				// or: the library's Validate() on a validation built from the value was taken as true on this path
+				for _, d := range p.decs {
+					if c, is := isLibCall(d.Cond); is && d.Truth && strings.Contains(calleeName(c), "Validate") && fromObj(c) {
+						okPath = true
+					}
+				}
+				if !okPath && bad == "" {
+					bad = fmt.Sprintf("a path (%d blocks) returns %s without the validation library having run on the value", len(p.blocks), shortCanon(canon(rv)))
+				}
+			}
+			r.Check(rule, construct, w.InstrPos(ret), bad == "", map[bool]string{true: "every path to this return either saw validate's Validate() on the bound value succeed or returns the library's own verdict", false: bad + ": a successful bind no longer implies that the value passed validation (rules declared through ConfigValidation / Messages methods or a later-changed tag option are skipped by any home-made 'nothing to check' test)"}[bad == ""])
+		})
+	}
+	r.Exists(rule, "binding.DataValidator implementers", token.NoPos, nImpl >= 1, fmt.Sprintf("%d validator implementation(s) in pkg/binding", nImpl))
 }
 
 func ruleC18Err(r *Run) {
